@@ -17,7 +17,15 @@
    Rust panic sites: `self.devices[i]` (set_keyboard/set_display: i = 1, 2; io_read/io_write:
    i = the port's id).  The model returns [None] there when the index is out of range;
    proofs/DevHandlerProofs.v shows that this never happens (at least 3 slots, ids below the length).
-   No proofs here. *)
+   No proofs here.
+
+   For importers (the simulator model): instantiate D with the simulator's device type and give its
+   behaviour as [dev_ops D] (d_read d_write d_reset d_poll).  Handler: [handler D] (h_devs h_ports),
+   [new_handler], [set_keyboard], [set_display], [add_device], [remove_device], [io_read], [io_write],
+   [io_reset], [poll_interrupt] (+ [interrupt], [vectored], [int_priority]).  Simulator side: [ireg],
+   [iregs] + [ireg_read]/[ireg_write]/[psr_set], [imap] + [default_imap]/[mmap_internal]/
+   [munmap_internal], and [bus_read]/[bus_write] for the MMIO arms.  proofs/DevHandlerProofs.v:
+   [h_inv] (kept by every operation: *_inv lemmas) excludes the None (panic) results. *)
 From Coq Require Import ZArith List Bool String.
 From Gen Require Import Constants.
 From Model Require Import Tree.
